@@ -31,6 +31,29 @@ fn nt_c04(r: &RunOut) -> bool {
     probe_c04(&Ix::new(r))
 }
 
+fn nt_c05(r: &RunOut) -> bool {
+    crate::oracle::probe_c05(&Ix::new(r))
+}
+
+fn nt_c06(r: &RunOut) -> bool {
+    let ix = Ix::new(r);
+    ix.fault("ack_deviation") > 0 || r.peers.first().is_some_and(|p| p.max_window >= 2)
+}
+
+fn nt_c08(r: &RunOut) -> bool {
+    let ix = Ix::new(r);
+    ix.ops.iter().any(|o| o.brief.starts_with("Stream") || o.brief.starts_with("Bad") || matches!(o.done, Some((_, crate::world::OpResult::Err(_)))))
+}
+
+fn nt_c13(r: &RunOut) -> bool {
+    let ix = Ix::new(r);
+    crate::oracle::probe_c05(&ix) && (ix.fault("cancel_op") > 0 || ix.ops.iter().any(|o| o.brief == "Ready") || ix.fault("wr_stall") > 0)
+}
+
+fn nt_c14(r: &RunOut) -> bool {
+    crate::oracle::probe_c14(&Ix::new(r))
+}
+
 pub fn spec(id: &str) -> Option<PropSpec> {
     let base: Vec<&'static str> = BASE_ASSUMPTIONS.to_vec();
     Some(match id {
@@ -54,6 +77,56 @@ pub fn spec(id: &str) -> Option<PropSpec> {
             nontrivial: nt_c04,
             assumptions: base,
         },
+        "C05" => PropSpec {
+            id: "C05",
+            level: "exploration",
+            families: vec![(Family::C05, 70), (Family::C13, 30)],
+            quick_runs: 24_000,
+            thorough_runs: 2_000_000,
+            rule: "one run = 1..limit+3 sender tasks (QoS1/QoS2 publishes, subscribe/unsubscribe in client roles, ready()) against a send limit 1..4 set through config, handshake override, peer Receive Maximum or CONNACK; peer acknowledges singly or batched; waiting futures cancelled; write stalls toggled; oracle counts on the wire: QoS1/2 PUBLISH written minus final acks the peer has SENT must never exceed the limit; distinct = distinct abstract history signature; non-trivial = the window was full at least once while more operations than the limit were started",
+            nontrivial: nt_c05,
+            assumptions: base,
+        },
+        "C06" => PropSpec {
+            id: "C06",
+            level: "exploration",
+            families: vec![(Family::C06, 80), (Family::C14, 20)],
+            quick_runs: 24_000,
+            thorough_runs: 2_000_000,
+            rule: "one run = sends with automatic and caller-chosen ids acknowledged by a peer that is correct or injects one deviation (reordered id, wrong ack type, duplicate, unknown id, unsolicited); reference model = FIFO of outstanding exchanges seen on the wire; oracle: Ok only after a matching ack of the right type was sent, contents equal, ids of outstanding sends distinct and non-zero, deviation ends the connection, correct peer never does; distinct = distinct abstract history signature; non-trivial = a deviation was actually delivered, or two or more exchanges were outstanding together",
+            nontrivial: nt_c06,
+            assumptions: base,
+        },
+        "C08" => PropSpec {
+            id: "C08",
+            level: "exploration",
+            families: vec![(Family::C08, 60), (Family::C05, 20), (Family::C03, 20)],
+            quick_runs: 24_000,
+            thorough_runs: 2_000_000,
+            rule: "one run = interleaved sink operations (QoS0/1/2, streamed sends with under/over-delivery and dropped handles, sends that fail in the encoder: over-long topic or filter, id in use, send during streaming) concurrent with inbound traffic answered by the dispatcher and write stalls; every byte the endpoint writes is parsed by the independent refcodec: complete well-formed packets only, failed sends leave nothing, payload bytes are position-coded; distinct = distinct abstract history signature; non-trivial = a streamed send or a locally failing send took part",
+            nontrivial: nt_c08,
+            assumptions: base,
+        },
+        "C13" => PropSpec {
+            id: "C13",
+            level: "exploration",
+            families: vec![(Family::C13, 60), (Family::C05, 20), (Family::C08, 20)],
+            quick_runs: 24_000,
+            thorough_runs: 2_000_000,
+            rule: "as C05 plus a cooperative closing phase: the peer acknowledges everything it received, stalls are lifted; at final quiescence with fewer exchanges outstanding than the limit every started operation that was not cancelled must have completed (bounded liveness: nothing is left that could wake it); distinct = distinct abstract history signature; non-trivial = at least one operation was parked on the window or on back-pressure (window reached the limit) and a cancellation or ready() took part",
+            nontrivial: nt_c13,
+            assumptions: base,
+        },
+        "C14" => PropSpec {
+            id: "C14",
+            level: "exploration",
+            families: vec![(Family::C14, 100)],
+            quick_runs: 24_000,
+            thorough_runs: 2_000_000,
+            rule: "one run = 2..4 sender tasks doing exactly-once sends (release or drop of the receipt) mixed with QoS1 traffic, PUBRECs delivered singly or batched, PUBCOMPs in any order allowed by the PUBRELs; oracle per exchange: receipt carries own id after own PUBREC, exactly one PUBREL with own id after release/drop, release resolves only after own PUBCOMP and does resolve; distinct = distinct abstract history signature; non-trivial = two exactly-once exchanges of different senders overlapped",
+            nontrivial: nt_c14,
+            assumptions: base,
+        },
         _ => {
             let _ = nt_any;
             return None;
@@ -61,4 +134,4 @@ pub fn spec(id: &str) -> Option<PropSpec> {
     })
 }
 
-pub const ALL: [&str; 2] = ["C03", "C04"];
+pub const ALL: [&str; 7] = ["C03", "C04", "C05", "C06", "C08", "C13", "C14"];
